@@ -426,11 +426,26 @@ func (s *solo) onFinish(m *rpcbench.WireMsg, t int64) {
 				}
 			}
 		}
+		if a.boot {
+			for _, b := range s.appBoots {
+				if b.pa == a || (b.copyOf != nil && b.copyOf.pa == a) {
+					s.deadHandle[b.h.ID] = true
+				}
+			}
+		}
 		if !legit {
 			s.violate("C06/finish-before-return", fmt.Sprintf("Conn finished question %d that has not returned and was not canceled", m.ID), s.log.Tail(30))
 		}
 		s.count("finish_before_return", 1)
 		return
+	}
+	if a.boot && m.ReleaseResultCaps {
+		// the bootstrap question was canceled: its clients are broken
+		for _, b := range s.appBoots {
+			if b.pa == a || (b.copyOf != nil && b.copyOf.pa == a) {
+				s.deadHandle[b.h.ID] = true
+			}
+		}
 	}
 	if m.ReleaseResultCaps && a.ret.RetKind == "results" {
 		for _, d := range a.ret.Payload.Caps {
@@ -438,6 +453,14 @@ func (s *solo) onFinish(m *rpcbench.WireMsg, t int64) {
 				if e := s.pexp[d.ID]; e != nil {
 					e.refs--
 				}
+			}
+		}
+	}
+	if a.boot && a.bootExport != nil && !m.ReleaseResultCaps {
+		for _, b := range s.appBoots {
+			if b.pa == a || (b.copyOf != nil && b.copyOf.pa == a) {
+				s.handlePexp[b.h.ID] = a.bootExport
+				s.handleBoundT[b.h.ID] = t
 			}
 		}
 	}
@@ -462,7 +485,11 @@ func (s *solo) onRelease(m *rpcbench.WireMsg, t int64) {
 		if s.handlePexp[h.ID] != e {
 			continue
 		}
-		if h.AcqT < t0 && h.RelT0 == 0 {
+		acq := h.AcqT
+		if bt := s.handleBoundT[h.ID]; bt > acq {
+			acq = bt
+		}
+		if acq < t0 && h.RelT0 == 0 {
 			s.violate("C07/release-while-held", fmt.Sprintf("Release(id=%d) sent while the application holds reference %q to that import", m.ID, h.Label), s.log.Tail(30))
 		}
 	}
